@@ -1,6 +1,7 @@
 package rules
 
 import (
+	"go/token"
 	"fmt"
 	"go/types"
 	"sort"
@@ -28,6 +29,75 @@ func runC08(c *core.Ctx, r *core.Reporter) {
 	c08funcinfo(c, r)
 	c08cache(c, r)
 	c08nostate(c, r)
+	c08late(c, r)
+}
+
+// c08late: Package.DefLambda copies the fields of the lambda it is given into the lambda already
+// registered under the name (that is how compiled callers see a redefinition). A field assigned after the
+// call is assigned on the unregistered copy only.
+func c08late(c *core.Ctx, r *core.Reporter) {
+	const rule = "C08.late"
+	r.Rule(rule, "no function assigns a field of a *Lambda on a path after it handed that lambda to Package.DefLambda: the registration copies the fields into the lambda compiled callers already reference, so a later assignment (closure, macro flag, forms) never reaches them when the name was defined before", 2)
+	def := c.LookupFunc("", "Package.DefLambda")
+	if def == nil {
+		r.Undecided(rule, "slip.(Package).DefLambda", "-", "anchor does not resolve")
+		return
+	}
+	defFn := c.SSAFunc(def)
+	for _, fn := range c.ModuleFuncs() {
+		if takesTestingT(fn) {
+			continue
+		}
+		n := 0
+		for _, b := range fn.Blocks {
+			for ci, in := range b.Instrs {
+				call, ok := in.(*ssa.Call)
+				if !ok || call.Call.StaticCallee() != defFn || len(call.Call.Args) < 3 {
+					continue
+				}
+				lam := canonVal(call.Call.Args[2])
+				n++
+				var late []string
+				after := core.ReachableBlocks(b, nil)
+				for _, b2 := range fn.Blocks {
+					for si, in2 := range b2.Instrs {
+						st, ok := in2.(*ssa.Store)
+						if !ok {
+							continue
+						}
+						fa, ok := st.Addr.(*ssa.FieldAddr)
+						if !ok || canonVal(fa.X) != lam {
+							continue
+						}
+						isAfter := false
+						if b2 == b {
+							isAfter = si > ci || loopsBack(b)
+						} else {
+							isAfter = after[b2]
+						}
+						if isAfter {
+							late = append(late, fmt.Sprintf("%s at %s", fieldName(fa), c.Pos(st.Pos())))
+						}
+					}
+				}
+				key := core.SSAName(fn)
+				if n > 1 {
+					key = fmt.Sprintf("%s#%d", key, n)
+				}
+				r.Decide(len(late) == 0, rule, key, c.Pos(call.Pos()), fmt.Sprintf("fields assigned after the registration: %v", late))
+			}
+		}
+	}
+}
+
+// loopsBack: block b can reach itself.
+func loopsBack(b *ssa.BasicBlock) bool {
+	for _, s := range b.Succs {
+		if core.ReachableBlocks(s, nil)[b] {
+			return true
+		}
+	}
+	return false
 }
 
 // flowsToArgs reports whether v (a List) reaches a store into a field named
@@ -350,7 +420,7 @@ func c08cache(c *core.Ctx, r *core.Reporter) {
 // c08nostate: a built-in's Call must not keep state in its function object.
 func c08nostate(c *core.Ctx, r *core.Reporter) {
 	const rule = "C08.nostate"
-	r.Rule(rule, "the Call/Place method of a registered built-in never stores into a field of its own function object (the object is shared by every evaluation of that code: a cached value makes the hundredth evaluation differ from the first); caching compiled sub-forms in elements of Function.Args is covered by C08.cache", 700)
+	r.Rule(rule, "the Call/Place method of a registered built-in, the closures it creates and the methods it calls on itself never store into a field of its own function object (the object is shared by every evaluation of that code: a cached value makes the hundredth evaluation differ from the first); caching compiled sub-forms in elements of Function.Args is covered by C08.cache", 700)
 	seen := map[*ssa.Function]bool{}
 	for _, b := range c.Registry() {
 		for _, m := range []*types.Func{b.Call, b.Place} {
@@ -362,36 +432,77 @@ func c08nostate(c *core.Ctx, r *core.Reporter) {
 				continue
 			}
 			seen[fn] = true
-			recv := fn.Params[0]
-			var bad []string
-			pos := fn.Pos()
-			var scan func(f *ssa.Function)
-			scan = func(f *ssa.Function) {
-				for _, bb := range f.Blocks {
-					for _, in := range bb.Instrs {
-						st, ok := in.(*ssa.Store)
-						if !ok {
-							continue
-						}
-						fa, ok := st.Addr.(*ssa.FieldAddr)
-						if !ok {
-							continue
-						}
-						if rootedAt(fa.X, recv, 0) {
-							bad = append(bad, fieldName(fa))
-							pos = st.Pos()
-						}
-					}
-				}
-				for _, af := range f.AnonFuncs {
-					scan(af)
-				}
-			}
-			scan(fn)
+			bad, pos := selfStores(fn)
 			key := core.FuncName(m)
 			r.Decide(len(bad) == 0, rule, key, c.Pos(pos), fmt.Sprintf("stores into fields of the receiver: %v", bad))
 		}
 	}
+}
+
+// selfStores lists the fields of its own function object that method fn (a Call or Place), the closures it
+// creates and the methods it calls on itself store into.
+func selfStores(fn *ssa.Function) ([]string, token.Pos) {
+	var bad []string
+	pos := fn.Pos()
+	visited := map[*ssa.Function]bool{}
+	// scan f, in which the values in recvs denote the function object; follows closures that capture it
+	// and statically called methods that receive it as their receiver
+	var scan func(f *ssa.Function, recvs map[ssa.Value]bool, depth int)
+	scan = func(f *ssa.Function, recvs map[ssa.Value]bool, depth int) {
+		if visited[f] || depth > 5 {
+			return
+		}
+		visited[f] = true
+		for _, bb := range f.Blocks {
+			for _, in := range bb.Instrs {
+				switch x := in.(type) {
+				case *ssa.Store:
+					if fa, ok := x.Addr.(*ssa.FieldAddr); ok && rootedAtAny(fa.X, recvs, 0) {
+						bad = append(bad, fieldName(fa))
+						pos = x.Pos()
+					}
+				case *ssa.MakeClosure:
+					af, ok := x.Fn.(*ssa.Function)
+					if !ok {
+						continue
+					}
+					sub := map[ssa.Value]bool{}
+					for i, bv := range x.Bindings {
+						if recvs[bv] && i < len(af.FreeVars) {
+							sub[af.FreeVars[i]] = true
+						}
+					}
+					if len(sub) > 0 {
+						scan(af, sub, depth+1)
+					}
+				case *ssa.Call:
+					g := x.Call.StaticCallee()
+					if g == nil || g.Signature.Recv() == nil || len(x.Call.Args) == 0 || len(g.Params) == 0 || g.Blocks == nil {
+						continue
+					}
+					if recvs[x.Call.Args[0]] && g.Pkg != nil && core.InModule(g.Pkg.Pkg) {
+						scan(g, map[ssa.Value]bool{g.Params[0]: true}, depth+1)
+					}
+				}
+			}
+		}
+	}
+	scan(fn, map[ssa.Value]bool{fn.Params[0]: true}, 0)
+	return bad, pos
+}
+
+// rootedAtAny: v is one of the values denoting the function object, or the address of a (nested, embedded) field of it.
+func rootedAtAny(v ssa.Value, recvs map[ssa.Value]bool, depth int) bool {
+	if depth > 6 {
+		return false
+	}
+	if recvs[v] {
+		return true
+	}
+	if fa, ok := v.(*ssa.FieldAddr); ok {
+		return rootedAtAny(fa.X, recvs, depth+1)
+	}
+	return false
 }
 
 // rootedAt: v is the receiver itself or the address of a (nested, embedded) field of it.
